@@ -4,7 +4,7 @@ import lib, storelib as S
 from lib import Result, model_call, run_sharded, e_fmt, e_list, Reader
 
 RULE = ('formats (signed, n_word 1..256, n_frac -8..n_word+8, complex or not; complex for n_word<=52): exhaustive over n_word<=24 and the boundary n_word set {31,32,33,52,53,63,64,65,100,128,255,256} in the quick tier '
-        '(every n_word in the thorough tier); for each: x.dtype, get_dtype(\'fxp\'), get_dtype(\'Q\'), get_dtype(None) under both configured defaults, Fxp(dtype=x.dtype), resize(dtype=...), fxp_sum(dtype=x.dtype), and parsing of Q/UQ/S/U spellings in lower, '
+        '(every n_word in the thorough tier); for each: x.dtype, get_dtype(\'fxp\'), get_dtype(\'Q\'), get_dtype(None) under both configured defaults (set at construction and switched afterwards on the object), Fxp(dtype=x.dtype), resize(dtype=...), fxp_sum(dtype=x.dtype), and parsing of Q/UQ/S/U spellings in lower, '
         'upper and mixed case (whenever m = n_word - n_frac >= 0). Strings are compared verbatim with the model renderer; parsed formats with the model parser. Non-trivial = n_frac is negative, exceeds n_word, or the format is complex or unsigned; distinct by format and notation.')
 ASSUMPTIONS = ['the two regular expressions of _parseformatstr are represented by a hand-written matcher in the model; re itself is exercised only through the implementation']
 
@@ -27,6 +27,11 @@ def run_cases(cases, res, stratum):
             xq = fx.Fxp(0j if cx else None, s, n, nf, dtype_notation='Q')
             obs['q_default'] = xq.dtype; obs['q_default_get_none'] = xq.get_dtype(); obs['q_default_get_fxp'] = xq.get_dtype('fxp'); obs['q_default_get_q'] = xq.get_dtype('Q')
             obs['fxp_default_get_none'] = fx.Fxp(None, s, n, nf).get_dtype()
+            # the configured default changed after construction (the rendering must not come from a stale cache)
+            xs = fx.Fxp(0j if cx else None, s, n, nf); xs.config.dtype_notation = 'Q'
+            obs['switched_to_q'] = (xs.get_dtype('Q'), xs.get_dtype(), xs.get_dtype('fxp'))
+            xs = fx.Fxp(0j if cx else None, s, n, nf, dtype_notation='Q'); xs.config.dtype_notation = 'fxp'
+            obs['switched_to_fxp'] = (xs.get_dtype('fxp'), xs.get_dtype(), xs.get_dtype('Q'))
             y = fx.Fxp(None, dtype=fxp_str(s, n, nf, cx)); obs['ctor'] = (bool(y.signed), int(y.n_word), int(y.n_frac), 'complex' in y.dtype)
             z = fx.Fxp(None, True, 8, 2); z.resize(dtype=fxp_str(s, n, nf, cx)); obs['resize'] = (bool(z.signed), int(z.n_word), int(z.n_frac), 'complex' in z.dtype)
             # receivers holding an integer / a real value: the dtype string and the object (format, complex or not) must agree
@@ -68,6 +73,9 @@ def run_cases(cases, res, stratum):
         for key, want in checks:
             if obs[key] != want:
                 res.fail(c, 'C12: %s does not spell the format in the requested notation' % key, expected=want, got=obs[key]); bad = True; break
+        if not bad and (obs['switched_to_q'] != (want_q, want_q, want_f) or obs['switched_to_fxp'] != (want_f, want_f, want_q)):
+            res.fail(c, 'C12: get_dtype does not render the requested / newly configured notation after config.dtype_notation was changed on the object',
+                     expected=((want_q, want_q, want_f), (want_f, want_f, want_q)), got=(obs['switched_to_q'], obs['switched_to_fxp'])); bad = True
         if bad:
             k += len(obs['parse']); continue
         if obs['ctor'] != (s, n, nf, cx) or obs['resize'] != (s, n, nf, cx):
